@@ -128,6 +128,18 @@ def bounded(tier):
                     r._validate_content(n, mixed, errs)
                 except Exception as ex:  # noqa
                     exc = type(ex).__name__
+                # the list a caller passes is shared between validators: an earlier entry must neither be lost nor change the verdict
+                earlier = ("earlier", "entry")
+                errs2 = [earlier]
+                try:
+                    r._validate_content(n, mixed, errs2)
+                except Exception as ex:  # noqa
+                    exc = exc or type(ex).__name__
+                canon = lambda es: [tuple("nan" if isinstance(x, float) and x != x else x for x in e) for e in es]   # nan != nan
+                if exc is None and (errs2[:1] != [earlier] or canon(errs2[1:]) != canon(errs)):
+                    b.failures.append(Failure("content:depends-on-earlier-errors", f"rule {rname}, content {content!r}: with an error list that already "
+                                              f"holds an entry the validator appends {len(errs2) - 1} entries instead of {len(errs)} (or loses the earlier one)",
+                                              {"rule": rname, "content": content, "children": nk, "mixed": mixed}, str(errs2[1:]), str(errs)))
                 try:
                     r._validate_content(n, mixed)
                 except MetapypeRuleError:
